@@ -139,7 +139,12 @@ def gen_program(r, two=None):
         if kind == "defs":
             return {"kind": "defs", "n": r.randrange(0, 40)}
         if kind == "defm":
-            return {"kind": "defm", "s": "".join(r.choice("ABCxyz 0123_-") for _ in range(r.randrange(1, 12)))}
+            toks = list("ABCxyz 0123_-")
+            if r.random() < 0.3:
+                # backslash sequences (always backslash + one more character, so the literal stays well formed): the
+                # directive emits the characters of the string as written, and pass one must size exactly those
+                toks += ["\\\\", "\\n", "\\t", "\\x41"] * 3
+            return {"kind": "defm", "s": "".join(r.choice(toks) for _ in range(r.randrange(1, 12)))}
         if kind == "empty":
             return None
         raise ValueError(kind)
@@ -180,6 +185,19 @@ def gen_program(r, two=None):
                 del lines[i]["label"]
             else:
                 prog_flags.add("label_then_location_directive")
+    if two is None and r.random() < 0.2:
+        # page-edge tail: a near jump in the last window of a page, and a label exactly on the FIRST byte of the next page
+        pg = r.choice((0x00000, 0xE0000))
+        near = [t for t in pool if t[1] == "near"]
+        if near:
+            lines.append({"stmt": {"kind": "org", "addr": pg + 0xF000 + r.choice((0x000, 0xF00, 0xFF0, 0xFFD))}})
+            tmpl, k, _ = r.choice(near)
+            lines.append({"stmt": {"kind": "instr", "tmpl": tmpl, "ikind": k}})
+            lines.append({"stmt": {"kind": "org", "addr": pg + 0x10000}})
+            lab = new_label()
+            lines.append({"label": lab, "stmt": {"kind": "instr", "tmpl": "NOP", "ikind": "plain"}})
+            labels.append(lab)
+            classes.update(("org", "instr"))
     if not labels:
         lines.append({"label": new_label(), "stmt": {"kind": "instr", "tmpl": "NOP", "ikind": "plain"}})
         labels.append(lines[-1]["label"])
@@ -304,7 +322,11 @@ def render(prog, r):
                 elif st["ikind"] == "near":
                     same = [l for l in nonbss_labels if (label_addr[l] & 0xF0000) == (a & 0xF0000)]
                     other = [l for l in nonbss_labels if (label_addr[l] & 0xF0000) != (a & 0xF0000)]
-                    if other and r.random() < 0.08:
+                    edge = [l for l in nonbss_labels if label_addr[l] == (a & 0xF0000) + 0x10000]
+                    if edge and r.random() < 0.6:
+                        l = r.choice(edge)       # first byte of the NEXT page: still another page, must be rejected
+                        xpage.append(i)
+                    elif other and r.random() < 0.08:
                         l = r.choice(other)
                         xpage.append(i)
                     elif same:
